@@ -54,6 +54,9 @@ def check(ctx):
              'with coupling at 0.8-0.95 of the dominance limit (gap still >= 1.05), all four system variants; a quarter to a half of the systems list their equations in a permuted order (same root, same basin; the dense solve must pivot past zero entries); '
              '(iii) root-free, non-differentiable, NaN-producing, constant functions, a double root and a divergent iteration; '
              '(ii-c) special values: roots and / or guesses with components exactly -1, 0, -0, 1, +-2^k, all components equal, guess exactly at the root (root a little off a special guess so that it stays inside the basin), every variant, tol mostly <= 1e-9; '
+             '(ii-d) nested / re-entrant use: outer functions F(x) = G(x) - G(x*) whose G couples to the solution w(x) of an inner system that the user function solves with a real ohsl Newton solve per evaluation '
+             '(all constants in closed form, w(x*) = w*; diagonal dominance and basin proved with |dw/dx| <= 1/gap_inner): inner size equal / smaller / larger, scalar in system, system in scalar, complex in real, real in complex (fixed right-hand side), '
+             'user-Jacobian inner solver, two levels deep (A calls B calls C); half of them run the inner solves of call 2 on a second thread (std::thread::scope) while the first is mid-solve - call 2 must stay bit-identical to call 1; '
              '(iv) ladders: never-converging functions (root-free, constant, non-differentiable, z^2 with tol 1e-300) solved under limits 1, 0, 2, 3, 5, 8, 13, 20, 50 on one object, all six variants: '
              'closure calls under limit m = m x calls under limit 1 (exactly m steps), every run a prefix of the longer ones, Err carries a point of step m+1; '
              '(v) reconfiguration sequences: solve, then every ordered arrangement of every non-empty subset of tolerance/delta/iterations/guess (64) plus same-value sets, guess(root), iterations(0), solve again: '
